@@ -43,6 +43,9 @@ pub enum Content {
     Text { len: u64, seed: u64 },
     /// huge: zeros with 8 marker bytes at every 64 MiB boundary and at the very end; never materialised
     Sparse { len: u64, seed: u64 },
+    /// a small, complete ZIP archive (payloads that themselves contain ZIP records: nested archives,
+    /// self-extractors): every record signature occurs inside entry data
+    Nested { seed: u64 },
 }
 
 const WORDS: &[&str] = &["lorem", "ipsum", "zip", "archive", "PK", "\n", " ", "entry", "0123456789", "the", "central", "directory", "\t", "é", "日本"];
@@ -52,6 +55,7 @@ impl Content {
         match self {
             Content::Lit(h) => h.0.len() as u64,
             Content::Rand { len, .. } | Content::Run { len, .. } | Content::Text { len, .. } | Content::Sparse { len, .. } => *len,
+            Content::Nested { .. } => self.bytes().len() as u64,
         }
     }
     pub fn is_sparse(&self) -> bool {
@@ -76,6 +80,7 @@ impl Content {
                 self.fill(0, &mut v);
                 v
             }
+            Content::Nested { seed } => nested_zip(*seed),
         }
     }
     /// bytes [off, off+buf.len()) of the content (used for Sparse streaming)
@@ -113,6 +118,9 @@ impl Content {
         }
     }
     pub fn gen(r: &mut Rng, max: u64) -> Content {
+        if max >= 200 && r.chance(1, 14) {
+            return Content::Nested { seed: r.below(64) };
+        }
         match r.below(8) {
             0 => Content::Lit(Hex(vec![])),
             1 | 2 => {
@@ -166,6 +174,10 @@ impl Content {
                 out.push(Content::Run { byte: b'a', len: *len });
             }
             Content::Sparse { .. } => {}
+            Content::Nested { .. } => {
+                out.push(Content::Lit(Hex(vec![])));
+                out.push(Content::Rand { len: n, seed: 1 });
+            }
         }
         out
     }
@@ -251,4 +263,19 @@ pub fn content_crc(c: &Content) -> u32 {
     } else {
         crc32(&c.bytes())
     }
+}
+
+/// a small complete archive built by the independent builder (deterministic in `seed`)
+pub fn nested_zip(seed: u64) -> Vec<u8> {
+    use crate::indep::build::{build, BEntry, Layout};
+    let mut r = Rng::new(seed ^ 0x2E57ED);
+    let mut l = Layout::default();
+    for (i, name) in ["readme.txt", "data.bin", "more/x"].iter().enumerate().take(1 + (seed % 3) as usize) {
+        let len = r.range(0, 40);
+        l.entries.push(BEntry { name: Hex(name.as_bytes().to_vec()), method: if (seed >> i) & 1 == 0 { 0 } else { 8 }, content: Content::Rand { len, seed: seed + i as u64 }, ..Default::default() });
+    }
+    if seed % 5 == 0 {
+        l.comment = Hex(b"inner".to_vec());
+    }
+    build(&l).image
 }
